@@ -3,3 +3,15 @@ claim("C12", "static: select/blocking-operation audit + termination-signal model
       "Structural necessary conditions of 'Close terminates and releases everything', decided on every function of package gomavlib: every blocking channel operation is guarded by a termination source that is triggered on the Close path; node-loop epilogue order; goroutine inventory with verified joins; Channel.run teardown typestate on every exit path; failed-initialisation cleanup; endpoint acquire/release pairing. It does not observe executions: termination under real schedules is not decided.",
       "Trusts the Go type checker and x/tools SSA construction; termination sources are classified structurally (chan struct{} only closed by plain close / ctx with called cancel); user transports' Close is assumed to unblock their Read.",
       "DESIGN.md §5 C12")
+claim("C10", "static: who-may-emit inventory, dominance (open first), path enumeration of Channel.run and of the reader loop (one event per read result), select shape of pushEvent, reader plumbing (go/ssa)",
+      "Structural necessary conditions of the per-channel event stream: only pushEvent sends events and only the channel's own goroutines call it; open event dominates the first read and every other event; on every exit path of Channel.run exactly one close event after both workers ended; every loop path of runReader emits exactly one event of the right kind carrying the value just read; pushEvent cannot drop. Interleavings themselves are not explored.",
+      "Trusts Go type checker / SSA; the frame reader's own correctness is the subject of C02/C05/C06; ordering across goroutines is argued from join structure, not observed.",
+      "DESIGN.md §5 C10")
+claim("C11", "static: request plumbing of the six Write* methods, node-loop dispatch guards (control dependence on membership / exclusion tests), queue ownership (who-may-send / who-may-receive), non-blocking summary of the loop body (go/ssa)",
+      "Structural necessary conditions of the fan-out: each Write* encodes, then hands the right request over the right unbuffered channel; the loop dispatches To/All/Except with exactly the required guard and exactly one enqueue per target; one bounded FIFO (capacity 64), one producer function, one consumer goroutine per channel; the loop body cannot block. Exactly-once/FIFO under real schedules is not observed.",
+      "Trusts Go channel semantics (FIFO, unbuffered rendezvous) and SSA construction.",
+      "DESIGN.md §5 C11")
+claim("C13", "static: non-blocking summary of the node loop body (call graph), shape of the enqueue select, worker self-return analysis against the awaited set of Channel.run's select (go/ssa)",
+      "Structural necessary conditions: enqueue is a non-blocking select on a bounded queue; nothing reachable from the loop body can block; a per-channel worker that can end on its own is awaited by Channel.run, or it never ends on its own (a failed write returns to the queue). Behaviour under real stalls is not observed.",
+      "Trusts Go type checker / SSA; denylist of blocking library calls is enumerated in the checker (time.Sleep, sync locks/waits, io/net/bufio reads, I/O interface methods).",
+      "DESIGN.md §5 C13")
